@@ -33,6 +33,7 @@ type EvalCtx struct {
 	oldA     *Term // allocation counter at the reference point for fresh()
 	depth    int
 	err      error
+	paramsFirst bool
 }
 
 func (c *EvalCtx) fail(format string, a ...interface{}) TV {
@@ -73,6 +74,19 @@ func (c *EvalCtx) typeByName(n string) types.Type {
 	}
 	star := strings.HasPrefix(n, "*")
 	n = strings.TrimPrefix(n, "*")
+	if i := strings.Index(n, "."); i > 0 {
+		if p := c.pkgByAlias(n[:i]); p != nil {
+			if o := p.Scope().Lookup(n[i+1:]); o != nil {
+				if tn, ok := o.(*types.TypeName); ok {
+					if star {
+						return types.NewPointer(tn.Type())
+					}
+					return tn.Type()
+				}
+			}
+		}
+		return nil
+	}
 	if c.pkg != nil {
 		if o := c.pkg.Scope().Lookup(n); o != nil {
 			if tn, ok := o.(*types.TypeName); ok {
@@ -439,11 +453,21 @@ func (c *EvalCtx) ident(name string) TV {
 		t := c.typeByName(g.Type)
 		return TV{V: x.ghostGet(c.cur, "$"+g.Name, x.sortOf(t)), T: t}
 	}
+	if c.paramsFirst {
+		if v, ok := c.params[name]; ok {
+			return v
+		}
+	}
 	if c.frame != nil {
 		// current value of a local / parameter cell
 		if a := findCell(c.frame.fn, name); a != nil {
 			if v, ok := c.cur.cells[a]; ok {
 				return TV{V: v, T: derefType(a.Type())}
+			}
+			if v, ok := c.frame.regs[a]; ok {
+				if _, isT := v.(*Term); isT {
+					return TV{V: v, T: a.Type()}
+				}
 			}
 		}
 	}
@@ -775,6 +799,19 @@ func (c *EvalCtx) callExpr(e *Expr) TV {
 			return TV{V: tb.Le(c.oldA, vv.Arr), T: boolT}
 		}
 		return c.fail("fresh() of non-reference")
+	case "modsentinel":
+		// the error value is one of the module's own package-level sentinels
+		v := c.eval(args[0])
+		t := c.mat(v, v.T)
+		return TV{V: tb.And(tb.Le(tb.IntC(1000), t), tb.Lt(t, tb.IntC(2000))), T: boolT}
+	case "implements":
+		v := c.eval(args[0])
+		t := c.typeByName(strings.TrimSpace(args[1].String()))
+		if t == nil {
+			return c.fail("unknown type %s", args[1])
+		}
+		r := c.mat(v, v.T)
+		return TV{V: tb.And(tb.UF("implements."+typeKey(t), BoolSort, x.typeOf(r)), tb.Ne(r, tb.IntC(0))), T: boolT}
 	case "typeis":
 		v := c.eval(args[0])
 		t := c.typeByName(strings.TrimSpace(args[1].String()))
